@@ -125,11 +125,36 @@ def crossed_derived_reads_derived(p):
     return False
 
 
+def crossed_derived_share_source(p):
+    """A crossing contains two within-trial derived factors whose basic dependencies overlap: some
+    combinations of their levels are jointly impossible although each level is possible on its own; the
+    code's impossibility test judges each derived level separately and keeps them."""
+    fm = _fm(p)
+
+    def basics(f, seen=()):
+        fd = fm[f]
+        if fd["kind"] != "derived":
+            return {f}
+        out = set()
+        for d in fd["window"]["deps"]:
+            if d not in seen:
+                out |= basics(d, seen + (f,))
+        return out
+    for c in _crossings(p):
+        ds = [f for f in c if fm[f]["kind"] == "derived" and not docsem.is_complex(p, fm[f])]
+        for i, f in enumerate(ds):
+            for g in ds[i + 1:]:
+                if basics(f) & basics(g):
+                    return True
+    return False
+
+
 CAUSES = [
     ("derived-source", derived_source),
     ("window-longer-than-trials", window_longer_than_trials),
     ("alignment-preamble", alignment_preamble),
     ("derived-chain-in-crossing", derived_chain_in_crossing),
+    ("crossed-derived-share-source", crossed_derived_share_source),
     ("complex-dependency", complex_dependency),
 ]
 
